@@ -187,10 +187,11 @@ package kv
 //@   modifies nothing
 //@ end
 //@ func compactJob.finishCompactionOutputFile
-//@   prop C03
-//@   requires c.state != nil
+//@   prop C02 C03
+//@   requires c.state != nil && c.family != nil
 //@   modifies c.state.builder, c.state.outputs, any(table.Builder).finished
 //@   ensures[a_finished_output_file_is_no_longer_the_open_one] err == nil ==> c.state.builder == nil
+//@   ensures[a_finished_output_stays_a_pending_output_until_the_job_is_cleaned_up] calls(c.family.removePendingOutput) == old(calls(c.family.removePendingOutput))
 //@ end
 //@ func compactFlusher.beforeAdd
 //@   prop C03
